@@ -18,10 +18,10 @@ P = {
     "C01": dict(text="Writer/reader table agreement for every serialised key of the daily, billing, hourly and CalTRACK-hourly families, state coverage of the predict path, re-serialisability of what the reader stores, sibling evaluators, coefficient-order conventions. Decides the structural necessary conditions of an exact round trip for all inputs; bit-identity of floating point is not decided.",
                 tech="table agreement + value-flow (def-use) + symbolic round trip of the hourly and daily/billing state (to_dict and from_dict interpreted back to back on symbolic attributes, through the JSON data model; the reader works on its own copy of the document) + abstract interpretation of the sibling evaluators and kernel wrappers (own AST interpreter) + effect analysis over the class hierarchy (no mutable state kept on the class and written through an instance); helper-transparency pre-pass", ref="4/C01, 9.8, 9.9, 9.10"),
     "C02": dict(text="Effect (write-set) analysis of every predict path against the serialised/read attribute sets, aliasing of data-object lists into models, copy-before-mutate origin analysis of the data classes, ownership of private frames. Holds for all call histories because it is a property of the code's write set.",
-                tech="effect / origin analysis over the call graph (ast); effect analysis over the class hierarchy for class-level mutable state", ref="4/C02, 9.10"),
+                tech="effect / origin analysis over the call graph (ast): predict-path write sets, copy-before-mutate of the data classes, in-place stores of fit/predict judged against the data object (a df accessor is fresh only where it hands out a copy); effect analysis over the class hierarchy for class-level mutable state", ref="4/C02, 9.10"),
     "C03": dict(text="Inventory of nondeterminism sources (RNG, clocks, hash-order, process-global state) reachable from any fit/predict, each shown sanitised (seeded, sorted, guarded) by def-use; thread pins and private optimiser start vectors present. Decides 'no unsanitised source reaches a result'; library bit-reproducibility is not decided.",
-                tech="source inventory + def-use to sinks (ast, call graph); effect analysis over the class hierarchy for class-level mutable state", ref="4/C03, 9.10"),
-    "C04": dict(text="For every model family the fit/predict CFGs are evaluated over all valuations of the guard atoms (dq, ignore, fitted, isinstance, timezone): work calls, normal returns and the dedicated raises are reachable exactly as the property's truth table says; raise-site census; no swallowing handler; poor-fit disqualification on every path; persistence of the disqualification list including snapshot ordering. Exhaustive over the finite guard space, for all inputs.",
+                tech="source inventory + def-use to sinks (ast, call graph), incl. worker-count dependent constructs (parallel kernels, prange, pools, n_jobs); effect analysis over the class hierarchy for class-level mutable state", ref="4/C03, 9.10"),
+    "C04": dict(text="For every model family the fit/predict CFGs are evaluated over all valuations of the guard atoms (dq, ignore, fitted, isinstance, timezone): work calls, normal returns and the dedicated raises are reachable exactly as the property's truth table says; raise-site census; no swallowing handler; poor-fit disqualification on every path; persistence of the disqualification list including snapshot ordering; the statistic the daily poor-fit gate reads is this fit's (refit scenario shared with C16). Exhaustive over the finite guard space, for all inputs.",
                 tech="CFG reachability under exhaustive guard valuations (three-valued truth tables), dominance, who-may-raise census", ref="4/C04"),
     "C05": dict(text="Column-level information flow: no def-use path from the reporting period's usage column to a kernel input, a feature list or a regime choice on any predict path; row filters and pass-through are classified and allowed. A thinly covered day stays a row of the daily roll-up and every calendar day of the span is a meter row (otherwise its weather is pooled into the previous day's prediction). Gap filling of the weather columns does not depend on the usage column, explicitly or through a test.",
                 tech="column-level information-flow (taint) analysis (ast, call graph) + one-row abstract interpretation of the daily usage roll-up + symbolic interpretation of interpolate() on recording values for every column order (explicit flow in the stored terms, implicit flow through the trie of explored tests) + interpretation of the daily calendar completion (date key classified)", ref="4/C05, 9.9, 9.10"),
@@ -33,7 +33,7 @@ P = {
                 tech="symbolic interpretation of the daily data class's meter roll-up (what is handed to the down-sampling helper); one-row abstract interpretation of downsample_and_clean_daily_data (day of coverage c: kept, rescaled, warned); symbolic interpretation of as_freq on recording values compared with a reference term; interpretation of compute_minimum_granularity on threshold representatives; threshold tables (mask normalisation) + aggregation-kind tags (ast)", ref="4/C08, 9.8, 9.9"),
     "C09": dict(text="A mean is never rescaled by coverage, the daily frame receives daily-kind columns, the 50% blanking rule (single definition of the invalid-day mask) and count definitions, sibling cross-check of the daily and billing implementations. merge_asof grouping and timezone arithmetic are not decided. The readings handed to the aggregation are the caller's temperature column, value-unchanged (R09.5); every calendar day of the span is a meter row, matched on year, month and day (R09.6).",
                 tech="abstract interpretation on recording frames: compute_temperature_features (aggregator and rename tables applied, grouping described) and _set_data (temperature column reaches the aggregation unaltered); kind tags per path (from the symbolic interpretation of as_freq) + structural patterns with metavariables + sibling cross-check (ast)", ref="4/C09, 9.8, 9.9"),
-    "C10": dict(text="Per-family criteria call lists are exactly the published set, each predicate is (quantity, operator, threshold) as published, every warning construction reaches the right sink (disqualification vs warnings), plumbing order of the two lists. Exactness of the runtime counts is not decided. The hourly classes hand the criteria the frame with filled-in values blanked and coverage flags of the blanked temperature.",
+    "C10": dict(text="Per-family criteria call lists are exactly the published set, each predicate is (quantity, operator, threshold) as published, every warning construction reaches the right sink (disqualification vs warnings), plumbing order of the two lists. day_counts is decided on a symbolic index (each period runs to the next timestamp); the remaining index arithmetic of the counts is not decided. The hourly classes hand the criteria the frame with filled-in values blanked and coverage flags of the blanked temperature.",
                 tech="exhaustiveness + sink classification (ast, call graph); scalar criteria interpreted on one representative per side of every threshold; valid-day totals, monthly-coverage criteria and the frame handed to the hourly criteria interpreted on recording columns / a state frame (own AST interpreter)", ref="4/C10, 9.8, 9.9"),
     "C11": dict(text="The full_model kernel is abstractly evaluated under every total pre-order of its comparison operands and zero/non-zero flags: regime table, boundary continuity, sign conventions; closed forms of the branches; load decomposition uses the kernel's own vector. Where the smoothing fractions use up the whole gap the two shifted balance points are one value (no regime choice decided by rounding). Real-analysis facts about the smoothed curve are not decided.",
                 tech="abstract interpretation on dual numbers (representative value x sympy expression) over the exhaustive order/zero-pattern domain: kernel, wrappers, smoothing (incl. exact-tie identity); recording stand-ins for the load decomposition (own AST interpreter)", ref="4/C11, 9.8, 9.10"),
@@ -45,7 +45,7 @@ P = {
                 tech="field census (literal evaluation) + CFG reachability + abstract interpretation (own AST interpreter) of the recursive checker over all field kinds, of every after-validator on a boundary grid against the published cross-field rules, and of the key/value normalisers over spelling classes", ref="4/C14, 9.8, 9.10"),
     "C16": dict(text="Each computed statistic's return expression, with sibling properties inlined, is algebraically equal to the textbook formula; undefined-rather-than-number guard; poor-fit gates' truth tables; hourly baseline metrics come from predict(baseline) on non-interpolated rows.",
                 tech="expression normalisation (sympy as term normaliser) + truth tables + def-use (ast); daily error metrics and their bookkeeping interpreted on sympy-valued stand-ins, including a refit scenario on a constructed model object (statistics after a second fit are those of the second fit)", ref="4/C16, 9.9, 9.10"),
-    "C17": dict(text="The hourly data class copies before mutating, zero->NaN only for electricity on observed, keep-first de-duplication, every interpolation store is bounded to cells that were missing, flags derive from was-missing-and-now-present in the right order; the contiguous index runs from wall-clock 00:00 of the first to wall-clock 23:00 of the last day (abstract wall-clock value, duration arithmetic rejected).",
+    "C17": dict(text="The hourly data class copies before mutating, zero->NaN only for electricity on observed, keep-first de-duplication, every interpolation store is bounded to cells that were missing, flags derive from was-missing-and-now-present in the right order; the contiguous index runs from wall-clock 00:00 of the first to wall-clock 23:00 of the last day (abstract wall-clock value, duration arithmetic rejected); index stores keep every reading at its instant; on the persistent-gap path both a forward and a backward fill are applied.",
                 tech="symbolic interpretation of interpolate()/_interpolate on recording values (every data-dependent branch, every lag threshold) + origin analysis + abstract wall-clock evaluation (ast)", ref="4/C17, 9.8"),
     "C18": dict(text="Exhaustive literal evaluation of the three weight tables (bijection, 3-cover, 1/0.5/0.5 neighbours), prediction routing month -> own centred window, hour_of_week form, complementary occupancy masks, bin-feature regime table.",
                 tech="one-row abstract interpretation (stand-ins on the own AST interpreter, incl. constant NumPy tables and the UTC-instant view of an index) of the weight tables for an hour of every local month x UTC-calendar position x tz-aware/naive, of segment_time_series and SegmentedModel routing, and of the bin features over all endpoint subsets; structural checks of masks (ast)", ref="4/C18, 9.9, 9.10"),
